@@ -2,7 +2,6 @@ package backupfs
 
 import (
 	"io/fs"
-	"strings"
 	"time"
 )
 
@@ -15,8 +14,9 @@ func newPrefixFileInfo(base fs.FileInfo, filePath, prefix string) fs.FileInfo {
 
 	if filePath == prefix {
 		nameOverride = separator
-	} else if prefix != "" && strings.HasPrefix(baseName, prefix) {
-		nameOverride = strings.TrimPrefix(baseName, prefix)
+	} else if prefix != "" && isAbs(baseName) && hasPathPrefix(baseName, prefix) {
+		// only a full path can contain the prefix, a plain file name never does
+		nameOverride = trimPathPrefix(baseName, prefix)
 	}
 
 	return &prefixFileInfo{
